@@ -100,13 +100,91 @@ def run_threads(bound, shard):
 
 THR_SHARDS = 2
 
+# histories: what an earlier logging call went through must not change how a later failure is contained
+HIST_EVENTS = ["good", "bad", "missing", "bad-action-start", "bad+report-1-interrupted", "bad+report-2-interrupted",
+               "bad-success+report-1-interrupted"]
+
+
+class Interrupt(BaseException):
+    """Raised by a destination while a failure report is delivered (like KeyboardInterrupt); the application survives it."""
+
+
+def run_history(seq):
+    def wrap(v):
+        return {"ser": v}
+
+    def boom(v):
+        raise SerBoom("x")
+
+    GOOD = MessageType("h:good", [Field("f", wrap, "")], "")
+    BAD = MessageType("h:bad", [Field("f", boom, "")], "")
+    BAD_START = ActionType("h:badstart", [Field("f", boom, "")], [], "")
+    BAD_SUCCESS = ActionType("h:badsuccess", [], [Field("r", boom, "")], "")
+    viol = []
+
+    def go():
+        seen = []
+        eliot.add_destinations(seen.append)
+        arm = {"left": 0}
+
+        def interrupting(m):
+            if arm["left"] and m.get("message_type", "").startswith("eliot:"):
+                arm["left"] -= 1
+                if arm["left"] == 0:
+                    raise Interrupt()
+
+        eliot.add_destinations(interrupting)
+        for i, ev in enumerate(seq):
+            name = HIST_EVENTS[ev]
+            n0 = len(seen)
+            arm["left"] = 1 if "report-1" in name else 2 if "report-2" in name else 0
+            try:
+                if name == "good":
+                    GOOD.log(f=i)
+                elif name == "missing":
+                    GOOD.log(other=i)
+                elif name == "bad-action-start":
+                    with BAD_START(f=i):
+                        pass
+                elif name.startswith("bad-success"):
+                    with BAD_SUCCESS() as a:
+                        a.add_success_fields(r=i)
+                else:
+                    BAD.log(f=i)
+            except Interrupt:
+                pass
+            except Exception as e:
+                viol.append(("history:logging-call-raised", {"history": [HIST_EVENTS[e_] for e_ in seq], "at": i, "error": repr(e)[:200]}))
+            faulted = arm["left"] == 0 and "interrupted" in name
+            arm["left"] = 0
+            new = seen[n0:]
+            kinds = [m.get("message_type") or (m.get("action_type"), m.get("action_status")) for m in new]
+            if "interrupted" in name:
+                continue
+            ntb, nsf = kinds.count("eliot:traceback"), kinds.count("eliot:serialization_failure")
+            if name == "good":
+                ok = kinds == ["h:good"] and new[0].get("f") == {"ser": i}
+            elif name in ("bad", "missing"):
+                ok = sorted(kinds) == ["eliot:serialization_failure", "eliot:traceback"]
+            else:
+                ok = ntb == 1 and nsf == 1 and ("h:badstart", "started") not in kinds and kinds.count(("h:badstart", "succeeded")) == 1
+            if not ok:
+                viol.append(("history:failure-not-contained-after-earlier-events",
+                             {"history": [HIST_EVENTS[e_] for e_ in seq], "at": i, "event": name, "delivered": repr(kinds)[:200]}))
+                break
+        return len(seen)
+
+    n = world.run_isolated(go)
+    return Result(outcome=["history", n], nontrivial=len(seq) > 1, violations=viol[:2])
+
 
 def DETERMINISM_REPLAY(case):
-    return case[0] != "thr"
+    return case[0] not in ("thr",)
 
 
 def units(tier):
     out = [["thr", 1 if tier == "quick" else 2, k] for k in range(THR_SHARDS)]
+    out.append(["history", 3 if tier == "quick" else 4])
     for n in (1, 2, 3) if tier == "quick" else (1, 2, 3, 4):
         for sers in itertools.product(range(5), repeat=n):
             if n >= 3 and sers.count(4) > 1:
@@ -120,6 +198,11 @@ def units(tier):
 def cases(unit, tier):
     if unit and unit[0] == "thr":
         yield unit
+        return
+    if unit and unit[0] == "history":
+        for n in range(1, unit[1] + 1):
+            for seq in itertools.product(range(len(HIST_EVENTS)), repeat=n):
+                yield ["history", list(seq)]
         return
     sers = unit
     n = len(sers)
@@ -144,6 +227,8 @@ def values():
 
 
 def run_case(case):
+    if case[0] == "history":
+        return run_history(case[1])
     if case[0] == "thr":
         try:
             execs, states, transitions, viol = run_threads(case[1], (case[2], THR_SHARDS))
